@@ -354,6 +354,40 @@ theorem lineEdges_adjacent {bps : List BP} (h : SortedBP bps) {a b : BP} (ha : a
     have h2' : c.t < b.t := (List.pairwise_cons.mp hinct).1 gb (by simp) c hc b hbgb
     exact hno c hcb ⟨h1', h2'⟩
 
+/-! ### chains of dummy vertices -/
+
+/-- consecutive pairs of a list -/
+def pairs {α} : List α → List (α × α)
+  | a :: b :: r => (a, b) :: pairs (b :: r)
+  | _ => []
+
+/-- `ns` picks one dummy vertex from each group of `gs` -/
+inductive Picks : List (List BP) → List BP → Prop
+  | nil : Picks [] []
+  | cons {g : List BP} {n : BP} {gs : List (List BP)} {ns : List BP} :
+      n ∈ g → n.k.isConn = false → Picks gs ns → Picks (g :: gs) (n :: ns)
+
+/-- along a run `mid` of consecutive position groups each of which carries a dummy vertex, the chosen
+    dummy vertices form a chain of edges -/
+theorem groupEdges_node_chain (rp : List BP) (pre mid post : List (List BP)) (ns : List BP)
+    (h : Picks mid ns) :
+    ∀ e ∈ pairs ns, e ∈ groupEdges rp (pre ++ mid ++ post) := by
+  induction h generalizing pre with
+  | nil => intro e he; simp [pairs] at he
+  | @cons g n mid' ns' hm hk hrest ih =>
+    cases hrest with
+    | nil => intro e he; simp [pairs] at he
+    | @cons g' n' mid'' ns'' hm' hk' hrest' =>
+      intro e he
+      simp only [pairs, List.mem_cons] at he
+      rcases he with rfl | he
+      · have := groupEdges_adjacent rp pre g g' (mid'' ++ post) n n' hm hm'
+          (by intro hc; rw [hk] at hc; cases hc) (by intro hc; rw [hk'] at hc; cases hc)
+        simpa [List.append_assoc] using this
+      · have := ih (pre ++ [g]) e he
+        simpa [List.append_assoc] using this
+
+
 /-! ### flags of the breakpoints -/
 
 theorem dirsX_up {conns : List Conn} {i : Nat} (h : (dirsX conns (.conn i)).2 = true) :
